@@ -272,7 +272,44 @@ def eval_vtt(spec, video, relativize, fit=False):
     return v, settings
 
 
-def eval_fit(x, y, wrel, hrel, level):
+def eval_doc_padding(vals, video):
+    """a DFXP region whose tts:padding is spelled with one to four lengths (TTML order: before end after start) is read
+    and written back with relativization: each edge must be the percentage of its own axis"""
+    from pycaption import DFXPReader, DFXPWriter
+
+    from mc.ref import docs
+
+    z = list(vals)
+    if len(z) == 1:
+        before = end = after = start = z[0]
+    elif len(z) == 2:
+        before, end, after, start = z[0], z[1], z[0], z[1]
+    elif len(z) == 3:
+        before, end, after, start = z[0], z[1], z[2], z[1]
+    else:
+        before, end, after, start = z
+    vw, vh = video
+    spelled = " ".join(v_ + u_ for v_, u_ in z)
+    doc = docs.dfxp_doc([("en-US", [('begin="1s" end="2s" region="r1"', "text")])], head=f'<layout><region xml:id="r1" tts:origin="10% 10%" tts:extent="50% 50%" tts:padding="{spelled}"/></layout>')
+    klass = f"padding-arity{len(z)}/" + "+".join(sorted({u_ for _, u_ in z}))
+    try:
+        out = shared.obj(DFXPWriter, relativize=True, video_width=vw, video_height=vh, fit_to_screen=False).write(shared.obj(DFXPReader).read(doc))
+    except Exception as e:  # noqa
+        return [(f"C13/dfxp-document/raises:{type(e).__name__}/{klass}", {"err": str(e)[:200], "padding": spelled})], "raises"
+    attrs = dfxp_region_attrs(out)
+    if not attrs or not attrs["padding"]:
+        return [(f"C13/dfxp-document/padding-missing/{klass}", {"padding": spelled, "doc": out[:900]})], "missing"
+    got = dict(zip(("pb", "pe", "pa", "ps"), attrs["padding"].split(" ")))
+    v = []
+    for a, (val, unit) in (("pb", before), ("pe", end), ("pa", after), ("ps", start)):
+        want = exact_pct(val, unit, a, vw, vh)
+        if a not in got or not close(got[a], want):
+            v.append((f"C13/dfxp-document/wrong-value:{a}/{klass}", {"padding": spelled, "written": attrs["padding"], "edge": a, "exact": float(want), "video": video}))
+            break
+    return v, attrs["padding"]
+
+
+def eval_fit(x, y, wrel, hrel, level, variant=None):
     """origin (x,y) percent; extent relation: None / 'fit' (exactly reaching the edge) / 'over' (+0.01) / 'big' (+50) / 'small' (half of the room)"""
     from pycaption import DFXPWriter
     from pycaption.geometry import Layout, Point, Size, Stretch, UnitEnum
@@ -302,16 +339,26 @@ def eval_fit(x, y, wrel, hrel, level):
         want_h = roomy if hrel in ("over", "big") else h
     if roomx < 0 or roomy < 0:
         return [], "outside-safe-area"
+    vx = ""
     try:
-        doc = shared.obj(DFXPWriter, fit_to_screen=True).write(mk_set(layout, level))
+        if variant == "absolute-padding-relativize-off":
+            # origin and extent are percentages (fit applies to them); only the padding is absolute and stays so
+            from pycaption.geometry import Padding
+
+            px = lambda n: Size(n, UnitEnum.PIXEL)  # noqa: E731
+            layout = Layout(origin=layout.origin, extent=layout.extent, padding=Padding(before=px(5), after=px(5), start=px(8), end=px(8)))
+            vx = "/" + variant
+            doc = shared.obj(DFXPWriter, relativize=False, fit_to_screen=True).write(mk_set(layout, level))
+        else:
+            doc = shared.obj(DFXPWriter, fit_to_screen=True).write(mk_set(layout, level))
     except Exception as e:  # noqa
-        return [(f"C13/fit/raises:{type(e).__name__}", {"err": str(e)[:200]})], "raises"
+        return [(f"C13/fit/raises:{type(e).__name__}{vx}", {"err": str(e)[:200]})], "raises"
     attrs = dfxp_region_attrs(doc)
     if not attrs or not attrs["extent"]:
-        return [(f"C13/fit/no-extent-written/{wrel}-{hrel}", {"attrs": attrs, "origin": [x, y]})], "no-extent"
+        return [(f"C13/fit/no-extent-written/{wrel}-{hrel}{vx}", {"attrs": attrs, "origin": [x, y]})], "no-extent"
     gw, gh = attrs["extent"].split(" ")
     ox, oy = attrs["origin"].split(" ")
-    klass = f"{wrel}-{hrel}"
+    klass = f"{wrel}-{hrel}{vx}"
     if not close(gw, want_w) or not close(gh, want_h):
         v.append((f"C13/fit/wrong-extent/{klass}", {"origin": [x, y], "written": attrs["extent"], "want": [float(want_w), float(want_h)]}))
     mw, mh = PCT.match(gw), PCT.match(gh)
@@ -357,6 +404,7 @@ def shards(tier, seed):
     sh.append({"k": "dfxp2", "part": 0})
     sh.append({"k": "dfxp2", "part": 1})
     sh.append({"k": "sami", "tier": tier})
+    sh.append({"k": "doc-padding"})
     sh.append({"k": "vtt", "tier": tier})
     sh.append({"k": "fit", "level": "caption"})
     sh.append({"k": "fit", "level": "node"})
@@ -414,6 +462,17 @@ def run_shard(d):
                     acc.case(("dfxp2", a, b, ua, ub, video), True, out, {"writer": "DFXPWriter", "axes": [a, b], "units": [ua, ub], "video": video})
                     for sig, det in v:
                         acc.violation(sig, {"k": "dfxp", "spec": spec, "video": video, "fit": False, "level": "caption"}, det)
+    elif k == "doc-padding":
+        lens = [("18", "px"), ("64", "px"), ("1", "em"), ("2", "c"), ("3", "%"), ("0.5", "em")]
+        for n in (1, 2, 3, 4):
+            for combo in itertools.product(lens, repeat=n):
+                if n == 4 and len({u_ for _, u_ in combo}) > 2:
+                    continue
+                for video in ((640, 360), (480, 480)):
+                    v, out = eval_doc_padding(combo, video)
+                    acc.case(("doc-padding", combo, video), True, out, {"tts:padding": " ".join(a_ + b_ for a_, b_ in combo), "video": video})
+                    for sig, det in v:
+                        acc.violation(sig, {"k": "doc-padding", "vals": [list(c_) for c_ in combo], "video": list(video)}, det)
     elif k == "sami":
         for a in AXES:
             for unit in UNITS:
@@ -456,10 +515,11 @@ def run_shard(d):
                     for hrel in rels if wrel is not None else [None]:
                         if hrel is None and wrel is not None:
                             continue
-                        v, out = eval_fit(x, y, wrel, hrel, d["level"])
-                        acc.case(("fit", x, y, wrel, hrel, d["level"]), True, out, {"origin": [x, y], "extent_relation": [wrel, hrel], "level": d["level"]})
-                        for sig, det in v:
-                            acc.violation(sig, {"k": "fit", "x": x, "y": y, "wrel": wrel, "hrel": hrel, "level": d["level"]}, det)
+                        for variant in (None, "absolute-padding-relativize-off") if (x in xs[:4] and y in ys[:4]) else (None,):
+                            v, out = eval_fit(x, y, wrel, hrel, d["level"], variant)
+                            acc.case(("fit", x, y, wrel, hrel, d["level"], variant), True, out, {"origin": [x, y], "extent_relation": [wrel, hrel], "level": d["level"], "variant": variant})
+                            for sig, det in v:
+                                acc.violation(sig, {"k": "fit", "x": x, "y": y, "wrel": wrel, "hrel": hrel, "level": d["level"], "variant": variant}, det)
     return acc.result()
 
 
@@ -478,6 +538,8 @@ def replay(case):
             v, _ = eval_vtt(spec, video, case["rel"], case.get("fit", False))
             if case.get("fit"):
                 v = [(s_ + "/fit", d_) for s_, d_ in v]
+    elif k == "doc-padding":
+        v, _ = eval_doc_padding([tuple(x) for x in case["vals"]], tuple(case["video"]))
     else:
-        v, _ = eval_fit(case["x"], case["y"], case["wrel"], case["hrel"], case["level"])
+        v, _ = eval_fit(case["x"], case["y"], case["wrel"], case["hrel"], case["level"], case.get("variant"))
     return [{"sig": s, "detail": d} for s, d in v]
